@@ -856,6 +856,8 @@ func genBreaking(ctx context.Context, t *rapid.T) *Case {
 			}
 		}
 	}
+	type movedElem struct{ id, from string }
+	var alsoMoved []movedElem
 	for i := 0; i < rapid.IntRange(2, 5).Draw(t, "edits"); i++ {
 		e := ed.ApplyBreaking(nw)
 		if e == nil {
@@ -863,6 +865,17 @@ func genBreaking(ctx context.Context, t *rapid.T) *Case {
 		}
 		for _, r := range e.Rules {
 			hot[r] = true
+		}
+		if e.MovedID != "" {
+			// the catalogue's own move operator: later annotations inside the element have a previous file too
+			// (an element may move several times: its previous file is the one of the old version)
+			known := movedMsg != nil && movedMsg.ID == e.MovedID
+			for _, mv := range alsoMoved {
+				known = known || mv.id == e.MovedID
+			}
+			if !known {
+				alsoMoved = append(alsoMoved, movedElem{e.MovedID, e.File})
+			}
 		}
 	}
 	nr := nw.Render()
@@ -875,10 +888,16 @@ func genBreaking(ctx context.Context, t *rapid.T) *Case {
 	}
 	paths := allPaths(c.Files)
 	if movedMsg != nil {
-		if pos, ok := nr.Pos[movedMsg.ID]; ok {
+		if pos, ok := nr.Pos[movedMsg.ID]; ok && nr.FileOf[movedMsg.ID] != movedFrom {
 			c.Moved = append(c.Moved, Moved{File: nr.FileOf[movedMsg.ID], Start: pos.Start, End: pos.End, OldFile: movedFrom})
 			// make suppressions of the old location likely
 			paths = append(paths, movedFrom, movedFrom, movedFrom)
+		}
+	}
+	for _, mv := range alsoMoved {
+		if pos, ok := nr.Pos[mv.id]; ok && nr.FileOf[mv.id] != mv.from {
+			c.Moved = append(c.Moved, Moved{File: nr.FileOf[mv.id], Start: pos.Start, End: pos.End, OldFile: mv.from})
+			paths = append(paths, mv.from)
 		}
 	}
 	c.Config = genConfig(t, "breaking", paths, protogen.SortedKeys(hot))
